@@ -382,9 +382,16 @@ Returns:
         vals.append(filled(var[:]).ravel())
 
     print(delim.join(keys), file=outfile)
+    # a missing datum is written with the text of its code in the header;
+    # a code with more than 7 significant digits would not compare equal
+    # to itself after %.6e
+    misscodes = [None] + [getattr(f.variables[k], 'missing_value', -999)
+                          for k in keys[1:]]
     for row in array(vals).T:
-        row.tofile(outfile, format='%.6e', sep=delim)
-        print('', file=outfile)
+        print(delim.join([str(m) if m is not None and v == m else '%.6e' % v
+                          for v, m in zip(row, misscodes)]), file=outfile)
+    # as tofile did: the caller gets the open handle back
+    outfile.flush()
 
     return outfile
 
